@@ -237,6 +237,7 @@ class Builder(object):
         self.fns = []
         self.trap = False
         self.data = None
+        self.file2 = False
 
     def add(self, text, num=None):
         if num is None:
@@ -284,7 +285,8 @@ def gen_build(rng, b, opts):
         b.add('DEF SEG=%d' % rng.choice([0, 64, 4096, 47104, 65535]))
     if rng.random() < 0.3:
         b.add('OPEN "O",2,"OUT.TXT"')
-    field = rng.random() < 0.2
+        b.file2 = True
+    field = rng.random() < 0.3
     if field:
         b.add('OPEN "R",1,"FLD.DAT",16:FIELD 1,5 AS F1$,7 AS F2$:LSET F1$="hello":LSET F2$="fld"')
         b.scalars['F1$'] = 'str'
@@ -532,6 +534,7 @@ def gen_case(rng, kind=None, opts=None):
         'k': 'op', 'p1': sorted([n, t] for n, t in lines.items()), 'direct': direct, 'op': op, 'where': where,
         'scalars': sorted(b.scalars), 'arrays': sorted([n, d] for n, d in b.arrays.items()),
         'deftype': b.deftype, 'base': b.base, 'fns': b.fns, 'trap': b.trap, 'pad': opts.get('pad', 0),
+        'file2': b.file2,
     }
     assert case['p1'], (lines, b.lines)
     return case
@@ -598,7 +601,7 @@ class C23(core.Check):
     PROPS = 'props/C23.v'
     MODEL_IMPORTS = ['gen.Gen_clear', 'model.ClearChain']
     QUICK_CASES = 130
-    THOROUGH_CASES = 4000
+    THOROUGH_CASES = 3000
     TRUSTED = ['table extractor translate/targets/gen_clear.py (AST -> guarded operation lists); meaning of the '
                'table strings (prim_call / prim_assign) and hand model of preserve_commons / gather_commons in '
                'model/ClearChain.v, tied by exact correspondence of the whole post-state; program loading, '
@@ -751,6 +754,8 @@ class C23(core.Check):
                 line = 'LOCATE 1,1'
             line += item
         p.append(('vars', line))
+        if case.get('file2'):
+            p.append(('file2', 'LOCATE 1,1:PRINT#2,"x":PRINT "<O>open|"'))
         p.append(('data', 'LOCATE 1,1:READ D9%:PRINT "<D>";D9%;"|"'))
         p.append(('deftype', 'LOCATE 1,1:ZZ=1.5:PRINT "<T>";ZZ;"|"'))
         p.append(('fn', 'LOCATE 1,1:PRINT "<N>";FNA!(1);"|"'))
@@ -1078,6 +1083,13 @@ class C23(core.Check):
                 return 'DATA after NEW: %r' % probes['data']
         elif got != first_data:
             return 'DATA pointer not reset by %s: %r' % (op['text'], probes['data'])
+        # open files: CHAIN leaves them open, RUN closes them unless ,R
+        if case.get('file2') and 'file2' in probes:
+            still = '<O>open|' in probes['file2']
+            if cmd == 'CHAIN' and not still:
+                return 'file #2 was closed by %s: %r' % (op['text'], probes['file2'])
+            if cmd == 'RUN' and still != (op['variant'] == 'file_r'):
+                return 'file #2 after %s: %r' % (op['text'], probes['file2'])
         # DEFtype: cleared, except over CHAIN MERGE
         t = '!'
         if cmd == 'CHAIN' and op['merge']:
